@@ -19,8 +19,8 @@ from concurrent.futures import ThreadPoolExecutor
 ROOT = os.path.dirname(os.path.abspath(__file__))
 HARNESS = os.path.join(ROOT, "harness")
 BUILD = os.path.join(ROOT, ".build")
-EVIDENCE = os.path.join(ROOT, "evidence")
-REPLAYS = os.path.join(ROOT, "replays")
+EVIDENCE = os.environ.get("VERIF_EVIDENCE_DIR", os.path.join(ROOT, "evidence"))
+REPLAYS = os.environ.get("VERIF_REPLAYS_DIR", os.path.join(ROOT, "replays"))
 KNOWN = os.path.join(ROOT, "known_findings.json")
 REPO = os.environ.get("VERIF_REPO_DIR", "/repo")
 GO = "go1.26.8"
@@ -358,6 +358,66 @@ def manifest():
     return 0
 
 
+def selftest(prop, only=None):
+    """Apply each mutant patch for prop to a scratch copy of /repo and expect the quick check to exit 1."""
+    import glob
+    import tempfile
+    mdir = os.path.join(ROOT, "mutants")
+    patches = sorted(glob.glob(os.path.join(mdir, prop + "-*.patch")))
+    seeded = sorted(glob.glob(os.path.join(ROOT, "seeded", "*", "patch.diff")))
+    for sp in seeded:
+        try:
+            meta = json.load(open(os.path.join(os.path.dirname(sp), "meta.json")))
+        except Exception:
+            meta = {}
+        if prop in meta.get("detected_by", [meta.get("property")]):
+            patches.append(sp)
+    if only:
+        patches = [p for p in patches if only in p]
+    results = []
+    for patch in patches:
+        scratch = tempfile.mkdtemp(prefix="verif-mut-", dir="/tmp")
+        try:
+            repo = os.path.join(scratch, "repo")
+            subprocess.run(["git", "-C", "/repo", "worktree", "add", "--detach", "-f", repo, "HEAD"],
+                           check=True, stdout=subprocess.DEVNULL, stderr=subprocess.DEVNULL)
+            # carry over uncommitted changes of /repo's working tree (normally none)
+            ap = subprocess.run(["git", "-C", repo, "apply", "--whitespace=nowarn", patch], stdout=subprocess.PIPE,
+                                stderr=subprocess.STDOUT, text=True)
+            if ap.returncode != 0:
+                results.append((patch, "PATCH-DOES-NOT-APPLY", ap.stdout.strip()[:200]))
+                continue
+            env = dict(os.environ)
+            env.update({"VERIF_REPO_DIR": repo, "VERIF_EVIDENCE_DIR": os.path.join(scratch, "evidence"),
+                        "VERIF_REPLAYS_DIR": os.path.join(scratch, "replays")})
+            t0 = time.time()
+            p = subprocess.run([sys.executable, os.path.join(ROOT, "verif.py"), os.environ.get("SELFTEST_TIER", "quick"), prop],
+                               env=env, stdout=subprocess.PIPE, stderr=subprocess.STDOUT, text=True)
+            viol = [l for l in p.stdout.splitlines() if l.startswith("VIOLATION")]
+            sig = ""
+            for v in viol[:1]:
+                rp = v.split("replay=", 1)[1]
+                try:
+                    sig = json.load(open(rp)).get("sig", "")
+                except Exception:
+                    sig = "crash-log"
+            verdict = {1: "CAUGHT", 0: "MISSED", 2: "INCONCLUSIVE"}.get(p.returncode, "rc=%d" % p.returncode)
+            results.append((patch, verdict, "%.0fs %s" % (time.time() - t0, sig)))
+            if p.returncode not in (0, 1):
+                print(p.stdout[-3000:])
+        finally:
+            subprocess.run(["git", "-C", "/repo", "worktree", "remove", "--force", os.path.join(scratch, "repo")],
+                           stdout=subprocess.DEVNULL, stderr=subprocess.DEVNULL)
+            shutil.rmtree(scratch, ignore_errors=True)
+            tag = hashlib.sha1(os.path.join(scratch, "repo").encode()).hexdigest()[:10]
+            shutil.rmtree(os.path.join(BUILD, "alt-" + tag), ignore_errors=True)
+    ok = True
+    for patch, verdict, info in results:
+        print("SELFTEST %s %-60s %s %s" % (prop, os.path.relpath(patch, ROOT), verdict, info))
+        ok = ok and verdict == "CAUGHT"
+    return 0 if ok else 1
+
+
 def main():
     if len(sys.argv) < 2:
         print(__doc__)
@@ -374,6 +434,8 @@ def main():
         return 0
     if cmd in ("quick", "thorough"):
         return run_property(sys.argv[2], cmd)
+    if cmd == "selftest":
+        return selftest(sys.argv[2], sys.argv[3] if len(sys.argv) > 3 else None)
     if cmd == "manifest":
         return manifest()
     if cmd == "replay":
